@@ -548,6 +548,11 @@ Definition intro_classes (S : schema) (F : features) (sites : list dsite) (r : r
 
 Definition bytes_sexp (b : bytes) : sexp := SStr b.
 
+(** a response in which some wrapper chain ends before its named type: the definition has a chain
+    deeper than introspection.Query nests [ofType] (known finding chain-beyond-query-depth) *)
+Definition was_cut {D} (r : r_schema D) : bool :=
+  existsb (fun x => match ref_leaf x with None => true | Some _ => false end) (all_refs r).
+
 Definition check_intro (l : list sexp) : sexp :=
   match field1 "schema" l, field1 "features" l, field1 "data" l, field1 "errors" l with
   | Some sc, Some fs, Some data, Some errs =>
@@ -584,6 +589,10 @@ Definition check_intro (l : list sexp) : sexp :=
                       | Some w => v_mismatch w []
                       | None =>
                           if negb (Nat.eqb nerr (count_errors r)) then v_mismatch "error-count" [of_nat (count_errors r)]
+                          else if was_cut on then
+                            (* everything else is right (oracle against the cut description, defaults,
+                               model = implementation), but the response is not the complete description *)
+                            v_oracle_fail "chain-beyond-query-depth" []
                           else v_ok (intro_classes S F sites r ++ (if gating_coherent S F then [] else ["incoherent-gating"]))%list
                       end
                   end
@@ -755,7 +764,9 @@ Definition check_rebuild (l : list sexp) : sexp :=
           | None =>
               (* 2. model of GetSchemaDefinition on the observed JSON vs the real one *)
               match model, robs with
-              | None, RError => v_ok ["rebuild-error"; (if hyps then "nontrivial" else "outside-hypotheses")]
+              | None, RError =>
+                  if negb hyps && was_cut o then v_oracle_fail "chain-beyond-query-depth" []   (* not re-buildable either *)
+                  else v_ok ["rebuild-error"; (if hyps then "nontrivial" else "outside-hypotheses")]
               | None, _ => v_mismatch "model-says-rebuild-fails" []
               | Some _, RError => v_mismatch "implementation-rebuild-fails" []
               | Some M, RRejected => v_ok ["rebuilt-rejected"]
